@@ -182,10 +182,10 @@ def do_bundle_budget(a, budget, n0, n1, i1):
         logix.Logix.MAX_BYTES = saved
 
 
-for _b in (1, 2, 3, 4, 5, 6, 8, 10):
+for _b in (1, 2, 3, 4, 5, 6, 8, 10, 12, 14, 16, 18, 20, 24):
   define(globals(), 'C07', 'bundle_reads_under_budget_%d' % _b, AV + ['n0', 'n1', 'i1'], "return do_bundle_budget([%s], %d, n0, n1, i1)" % (", ".join(AV), _b),
        [" and ".join('-32768 <= %s <= 32767' % a for a in AV), '1 <= n0 <= %d and 1 <= n1 <= %d and 0 <= i1 <= %d' % (N, N, N - 1)],
-       tier='quick' if _b in (2, 4, 5) else 'thorough', timeout=3000, path_timeout=300, drives=DRIVES,
+       tier='quick' if _b in (4, 12, 16) else 'thorough', timeout=3000, path_timeout=300, drives=DRIVES,
        symbolic=['n0, n1, i1', 'a0..a3'],
        bounds='bundle [Read Tag Fragmented, Read Tag Fragmented, Read Tag] with the reply budget Logix.MAX_BYTES scaled down to %d bytes: each' % _b + ' embedded reply (status 0x00/0x06, data) '
               'equals the reply of the same request issued alone -- bundling does not shrink or grow a member\'s fragment', outside='')
